@@ -47,6 +47,7 @@ def plan(tier, seed):
     tasks = [dict(op="solve_hist", case=i, weight=4) for i in range(len(solver_cases(tier)))]
     tasks += [dict(op="path", case=i, weight=3) for i in range(len(path_cases(tier)))]
     tasks += [dict(op="estimator", est=e, weight=4) for e in EST_SPECS]
+    tasks += [dict(op="sqrt_path", weight=2)]
     return tasks
 
 
@@ -281,7 +282,17 @@ def run_path(task, ctx):
                 z[-1] = 1.5
                 inits.append(z)
         else:
-            inits += [np.ones((T, X.shape[1] + fi))]
+            p_ = X.shape[1]
+            inits += [np.ones((T, p_ + fi))]
+            # rows whose coefficient is zero for the first task only / non-zero for the first task only, and a row-sparse start
+            Wa = np.zeros((T, p_ + fi))
+            Wa[1:, 0] = 1.5
+            Wa[0, p_ - 1] = -1.0
+            Wb = np.zeros((T, p_ + fi))
+            Wb[:, 1 % p_] = [0.5 * (t + 1) for t in range(T)]
+            if fi:
+                Wa[:, -1] = 0.5
+            inits += [Wa, Wb]
         for grid in grids:
             for w0 in inits:
                 params = dict(op="path", solver=sname, kw=skw, datafit=dn, dspec=dspec, storage=storage, X=X.tolist(), y=y.tolist(),
@@ -414,7 +425,63 @@ def run_estimator(task, ctx):
     ctx.sample(dict(op="estimator", est=name, moves=est_moves(name, 3), depth=depth))
 
 
+def exec_sqrt_path(params):
+    """SqrtLasso.path on one grid (any order): every returned (alpha_i, coef_i) pair must be stationary for the documented objective
+    ||y - Xw||_2 + alpha_i ||w||_1 at *that* alpha; the returned alphas are the requested ones."""
+    import warnings
+    from skglm.experimental.sqrt_lasso import SqrtLasso
+    X = np.array(params["X"], dtype=float)
+    y = np.array(params["y"], dtype=float)
+    grid = list(params["grid"])
+    out = []
+    with warnings.catch_warnings(record=True) as caught:
+        warnings.simplefilter("always")
+        try:
+            alphas, coefs = SqrtLasso(tol=1e-10).path(X, y, alphas=np.array(grid))
+        except Exception as e:
+            return [("exception", type(e).__name__ + ": " + str(e)[:120], "path succeeds")], None
+    small = any("Small residuals" in str(c.message) for c in caught)
+    if sorted(np.asarray(alphas).tolist()) != sorted(grid):
+        out.append(("returned_alphas_differ_from_grid", np.asarray(alphas).tolist(), grid))
+    if np.asarray(coefs).shape != (len(grid), X.shape[1]):
+        return out + [("path_shape", list(np.asarray(coefs).shape), [len(grid), X.shape[1]])], None
+    n = X.shape[0]
+    for a, w in zip(alphas, coefs):
+        r = y - X @ w
+        if small or np.linalg.norm(r) <= 1e-6 * (1 + np.linalg.norm(y)):
+            continue                              # documented non-convergence at (near-)zero residual
+        prob = dict(datafit=dict(name="SqrtQuadratic"), penalty=dict(name="L1", alpha=float(a), positive=False), X=X, y=y, fit_intercept=False)
+        viol = RC.violation(prob, w, "subdiff", "pn")[0]
+        if viol > 1e-6:
+            out.append(("certificate_invalid", dict(alpha=float(a), recomputed=viol, coef=np.asarray(w).tolist()), "<= 1e-6"))
+    return out, np.asarray(coefs)
+
+
+def run_sqrt_path(ctx):
+    for xid, X in (("tall6x3", A.G_TALL), ("sq4x4", A.G_SQ), ("dup", A.K()["dup"])):
+        for tname, y in R.targets("reg", X, ctx.tier):
+            amax = float(np.max(np.abs(X.T @ y)) / np.linalg.norm(y))      # critical value of ||y - Xw||_2 + alpha ||w||_1
+            base = [0.5 * amax, 0.2 * amax, 0.05 * amax]
+            grids = [list(g) for g in itertools.permutations(base)] + [[a] for a in base] + [[1.2 * amax, 0.5 * amax], [0.5 * amax, 1.2 * amax, 0.1 * amax],
+                                                                                                 [0.2 * amax, 0.2 * amax]]
+            if ctx.tier != "quick":
+                b4 = base + [0.9 * amax]
+                grids += [list(g) for g in itertools.permutations(b4)]
+            for grid in grids:
+                params = dict(op="sqrt_path", X=X.tolist(), y=y.tolist(), grid=grid, xid=xid)
+                v, coefs = exec_sqrt_path(params)
+                ctx.transitions += len(grid)
+                ctx.states += len(grid)
+                ctx.count("path_calls")
+                ctx.obs(coefs, nontrivial=coefs is not None and bool(np.any(coefs)))
+                for kind, got, exp in v:
+                    ctx.violation("estimator:SqrtLasso.path", kind, params, got, exp, where=dict(estimator="SqrtLasso"))
+    ctx.sample(dict(op="sqrt_path", grids="all orders of a 3-value grid, singletons, above-critical first / in the middle, repeated value"))
+
+
 def run(task, ctx):
+    if task["op"] == "sqrt_path":
+        return run_sqrt_path(ctx)
     if task["op"] == "solve_hist":
         return run_solve_hist(task, ctx)
     if task["op"] == "path":
@@ -425,6 +492,9 @@ def run(task, ctx):
 def replay(params):
     from mc import comp as C
     from mc.core import fhex
+    if params["op"] == "sqrt_path":
+        v, coefs = exec_sqrt_path(params)
+        return dict(violated=bool(v), kinds=[x[0] for x in v], detail=fhex([[x[0], x[1], x[2]] for x in v[:6]]), coefs=fhex(coefs))
     if params["op"] == "path":
         v, coefs = exec_path(params)
         return dict(violated=bool(v), kinds=[x[0] for x in v], detail=fhex([[x[0], x[1], x[2]] for x in v[:6]]), coefs=fhex(coefs))
@@ -462,7 +532,8 @@ def describe(tier, agg):
             "with repetition, depth 3 (4 thorough), on persistent (w, Xw) buffers and one compiled penalty, from a cold start and from "
             "warm starts (supports larger/smaller than the working set, zero support with non-zero intercept), for 15 solver "
             "configurations x 3 designs; states deduplicated by (w, Xw, alpha) bytes; (b) path() for every permutation of a 3-value "
-            "grid, singletons, a grid starting above the critical value and a repeated value, with and without w_init; (c) estimator "
+            "grid, singletons, a grid starting above the critical value and a repeated value, with and without w_init (multitask: dense, "
+            "first-task-only-zero rows and row-sparse starts), and SqrtLasso.path on the same grids; (c) estimator "
             "histories fit -> (set_params -> fit)^d, d <= 2 (3), warm_start=True, over all parameter moves; oracles: certificate of "
             "the current problem, Xw buffer consistency, optimality-gap theorem against the cold start / a fresh estimator")
     return rule, {"converged_ops": 500, "path_calls": 100, "estimator_histories": 100}
